@@ -40,9 +40,15 @@ fn elf_flags_to_prot(flags: u32) -> u32 {
     proc_flags
 }
 
-fn round_up_to_page_size(size: u64) -> u64 {
-    (size + 0xfff) & !0xfff
+fn round_up_to_page_size(size: u64) -> Option<u64> {
+    Some(size.checked_add(0xfff)? & !0xfff)
 }
+
+/// Upper bound for the memory size of a single segment. The header field is attacker-controlled
+/// and not related to the size of the file (a .bss can be arbitrarily larger than its file
+/// content), so it must not be turned into an allocation unchecked. 1 GiB is far beyond any
+/// binary this emulator can run, in particular on wasm32.
+const MAX_SEGMENT_MEMORY_SIZE: u64 = 1 << 30;
 
 // TODO: System V ABI mentions %rdx should have "a function pointer that the application should register with atexit" at process entry
 
@@ -154,7 +160,7 @@ impl Axecutor {
                                 "ELF: preexisting TLS area is too small"
                             );
                             debug_log!("ELF: TLS area already exists, reusing it");
-                            segment.p_vaddr + a.len()
+                            segment.p_vaddr.wrapping_add(a.len())
                         }
                         None => Err(AxError::from("ELF: TLS area does not exist, but expected it to be created by previous LOAD program header"))?,
                     };
@@ -190,7 +196,22 @@ impl Axecutor {
 
                     // The area starts at p_vaddr (which need not be page-aligned) and extends to the
                     // end of the last page the segment touches
-                    let memsz = round_up_to_page_size(segment.p_vaddr + segment.p_memsz)
+                    if segment.p_memsz > MAX_SEGMENT_MEMORY_SIZE {
+                        return Err(AxError::from(format!(
+                            "ELF: segment at {:#x} has an unreasonably large memory size of {:#x} bytes",
+                            segment.p_vaddr, segment.p_memsz
+                        )));
+                    }
+                    let memsz = segment
+                        .p_vaddr
+                        .checked_add(segment.p_memsz)
+                        .and_then(round_up_to_page_size)
+                        .ok_or_else(|| {
+                            AxError::from(format!(
+                                "ELF: segment at {:#x} with memory size {:#x} does not fit into the address space",
+                                segment.p_vaddr, segment.p_memsz
+                            ))
+                        })?
                         - segment.p_vaddr;
 
                     if memsz == segment.p_filesz {
